@@ -390,6 +390,12 @@ for _k in ('suback_v311', 'unsuback_v311', 'suback_v5', 'unsuback_v5'):
     S('st_recv_' + _k, {}, stubs=_st, est=600, mem='L',
       bounds='%s (id r all u16) received by a connected client with one pending id u (still in use, or already released by the application) and one unrelated id' % _k.upper(), symbolic='u, w, r, still-used flag',
       encodes=['process_recv_*_%s' % _k.split('_')[0]])
+for _n, _d in (('v311_q1', 'v3.1.1 [QoS1 PUBLISH(i), PUBREL(k)]'), ('v311_q2', 'v3.1.1 [QoS2 PUBLISH(i), PUBREL(k)]'), ('v5_q1', 'v5.0 [QoS1 PUBLISH(i), PUBREL(k)]'), ('v5_q2', 'v5.0 [QoS2 PUBLISH(i), PUBREL(k)]')):
+    S('st_restore_pair_' + _n, {}, stubs=_st, est=600, mem='L',
+      bounds='restore_packets(%s) into a fresh client, ids symbolic; order, wait sets, in-use ids, re-registration refused' % _d, symbolic='i, k', encodes=['restore_packets', 'register_packet_id'])
+S('st_send_publish_v5_manual_alias_rebind1', {}, stubs=_st, est=900, mem='XL', timeout=3600,
+  bounds='v5.0 QoS0 PUBLISH (topic in {a,b}) with Topic Alias 1..=3 sent by a connected client whose table (max 3) holds one earlier binding; sender table compared with a receiver model', symbolic='k1, a1, kx, ax',
+  encodes=['process_send_v5_0_publish', 'TopicAliasSend::{insert_or_update,peek}'])
 # v5.0 codec harnesses follow the same scheme as the steps (global unwind 2 + whitelist)
 CODEC_UWS = STEP_UWS[:-1] + [(r'verif_harness', 24), STEP_UWS[-1]]
 LONG_UWS = STEP_UWS[:-1] + [(r'verif_harness', 140), (r'mqtt_string|mqtt_binary|arc_payload', 140), (r'memcmp|compare_bytes|SlicePartialEq|5slice3cmp', 140), STEP_UWS[-1]]
